@@ -88,6 +88,14 @@ def adversarial(name, p):
         elif name == "tuple-dag-as-dict-key":
             out += b"{" + b"r" + i32(depth - 1) + b"N" + b"0"
         return out
+    if name == "negative-length-in-big-container":
+        # a container claiming `count` elements whose every element is a string of negative length: a reader that
+        # moves its position by the length goes backwards and never reaches the end of the data
+        elem = [b"s", b"u", b"t", b"a", b"z\xfb"][n % 5]
+        body = elem + (i32(-5 - n % 7) if not elem.startswith(b"z") else b"")
+        return [b"(", b"[", b"<"][n % 3] + i32(p["count"]) + body + b"N" * 8
+    if name == "negative-length-string":
+        return [b"s", b"u", b"t", b"a", b"A", b"l"][n % 6] + i32(-1 - n)
     if name == "float-text-garbage":
         return b"f\x05nan!!" + b"x\x03abc\x031e5"
     return b"?"
@@ -112,7 +120,7 @@ ADV_NAMES = ["tuple-count-lies", "list-count-lies", "set-count-lies", "many-tiny
              "deep-nesting", "deep-nesting-lists", "deep-nesting-dicts", "ref-out-of-range", "self-reference",
              "self-reference-in-set", "string-length-lies", "unicode-length-lies", "long-digit-count-lies", "unknown-type-codes",
              "dict-no-terminator", "code-with-garbage-fields", "stringref-out-of-range", "unhashable-in-set",
-             "null-in-odd-places", "float-text-garbage", "list-containing-itself", "dict-containing-itself", "tuple-dag",
+             "null-in-odd-places", "float-text-garbage", "negative-length-in-big-container", "negative-length-string", "list-containing-itself", "dict-containing-itself", "tuple-dag",
              "tuple-dag-in-set", "tuple-dag-as-dict-key"]
 
 
@@ -223,7 +231,7 @@ class C11:
         elif t == "adv" and case.get("name") in ADV_NAMES and case.get("v") in ADV_VERSIONS:
             payload = adversarial(case["name"], case)
             if case["v"] == "2.5" or case["name"] == "dropbox":
-                hdr = struct.pack("<H", 62135) + b"\r\n" + struct.pack("<II", 0, 0)
+                hdr = struct.pack("<H", 62135) + b"\r\n" + struct.pack("<I", 0)        # (a 2.5 header: magic + timestamp)
             else:
                 hdr = header_for(self.magics, case["v"])
             data = hdr + payload
